@@ -123,9 +123,25 @@ def run(rng, tier, model_ok):
                 return None
             items.append(("%s + %s %s" % (ys, xs, a), adopt))
             items.append(("%s %s - %s" % (xs, a, ys), adopt))
+    # every unit against a representative of every dimension: a cast succeeds exactly when the dimensions agree, whatever the target
+    for q, na, nt in unitlib.cast_matrix(V, rng, tier):
+        comm = V.dims(na) == V.dims(nt)
+        stats["commensurable" if comm else "mismatching"] += 1
+
+        def mo(reply, comm=comm, na=na, nt=nt, q=q):
+            if not comm:
+                return None if pipeline.is_error(reply) else {"why": "dimensions differ but the cast was accepted", "expected": "error"}
+            v = pipeline.single_value(reply)
+            if v is None:
+                return {"why": "same base dimensions but the cast was refused", "expected": "a number"}
+            x = int(q.split(" ")[0])
+            if V.dims(v[2]) != V.dims(nt) or V.si(v[0], v[1], v[2]) != x * V.scale(na):
+                return {"why": "conversion changed the quantity: SI value %s, expected %s" % (V.si(v[0], v[1], v[2]), x * V.scale(na))}
+            return None
+        items.append((q, mo))
     corpus = vlib.load_corpus("C02")
     items = [(q, None) for q in corpus] + items
-    replies, failures, mismatches, ncoq = pipeline.run_queries(items, "C02", rng, tier, model_ok, budget_quick=1500)
+    replies, failures, mismatches, ncoq = pipeline.run_queries(items, "C02", rng, tier, model_ok, budget_quick=2500)
     distinct = {q for q, _ in items}
     return {
         "evaluations": len(items), "distinct_nontrivial": len(distinct),
